@@ -368,6 +368,15 @@ fn c12_hmat_non_square_matrix_row_major() {
                 assert_eq!(got, model, "HMAT {}x{} after set_entry_value({}, {}, {}): row-major matrix (stride = number of targets)", ni, nt, i, j, v);
             }
         }
+        // a cell re-assigned to 0xFFFF (or to 0) holds that value like any other
+        for (i, j, v) in [(ni - 1, nt - 1, 0xffffu16), (0, 0, 0), (ni - 1, 0, 0xffff)] {
+            s.set_entry_value(i, j, v);
+            model[i * nt + j] = v;
+            let b = ser(&s);
+            let base = 32 + 4 * ni + 4 * nt;
+            let got: Vec<u16> = (0..ni * nt).map(|k| le16_at(&b, base + 2 * k)).collect();
+            assert_eq!(got, model, "HMAT {}x{} after re-assigning ({}, {}) to {:#x}", ni, nt, i, j, v);
+        }
     }
 }
 #[test]
@@ -421,6 +430,24 @@ fn c03_cedt_records_are_self_describing() {
     // every interleave arity (the encodings are not monotone: 3/6/12 ways are codes 8/9/10), XOR maps
     let ways = [(InterleaveWays::Ways1, 1usize, 0u8), (InterleaveWays::Ways2, 2, 1), (InterleaveWays::Ways4, 4, 2), (InterleaveWays::Ways8, 8, 3),
                 (InterleaveWays::Ways16, 16, 4), (InterleaveWays::Ways3, 3, 8), (InterleaveWays::Ways6, 6, 9), (InterleaveWays::Ways12, 12, 10)];
+    // a window with fewer (or more) targets than its interleave arity is refused, never emitted mis-sized
+    for (w, cnt, _) in ways.iter().copied() {
+        for given in [0usize, cnt - 1, cnt + 1] {
+            if given == cnt { continue; }
+            let r = catch_unwind(AssertUnwindSafe(|| {
+                let mut f = CxlFixedMemory::new(0, 0x1000_0000, InterleaveArithmetic::Modulo, InterleaveGranularity::Granularity256b, w, 0);
+                for k in 0..given { f.add_target([b'T', b'0', b'0' + (k / 10) as u8, b'0' + (k % 10) as u8]); }
+                let mut t = CEDT::new(*b"FOOBAR", *b"DECAFCOF", 1);
+                t.add_fixed_memory(f);
+                t.add_host_bridge(CxlHostBridge::new(1, CxlVersion::Cxl2, 0x1000));
+                ser(&t)
+            }));
+            if let Ok(b) = r {
+                check_table("CEDT with a mis-populated CFMWS", &b);
+                walk_cedt("CEDT with a mis-populated CFMWS", &b, &[1, 0]);
+            }
+        }
+    }
     let mut t = CEDT::new(*b"FOOBAR", *b"DECAFCOF", 1);
     let mut types = Vec::new();
     for (n, (w, cnt, code)) in ways.into_iter().enumerate() {
@@ -939,6 +966,18 @@ fn c10_resource_templates_reference() {
     let b = ser(&AddressSpace::<u64>::new_memory(AddressSpaceCacheable::PreFetchable, true, 0x1_0000_0000, 0x1_ffff_ffff, Some(5)));
     assert_eq!(b[0], 0x8a); assert_eq!(le16_at(&b, 1) as usize, b.len() - 3); assert_eq!(b[3], 0); assert_eq!(b[4], 0x0c); assert_eq!(b[5], 7);
     assert_eq!(le64_at(&b, 14), 0x1_0000_0000); assert_eq!(le64_at(&b, 22), 0x1_ffff_ffff); assert_eq!(le64_at(&b, 30), 5); assert_eq!(le64_at(&b, 38), 0x1_0000_0000);
+    // the type-specific flags do not depend on whether a translation offset was given
+    for tr in [None, Some(0u16), Some(0x1000)] {
+        let b = ser(&AddressSpace::<u16>::new_io(0x100, 0x1ff, tr));
+        assert_eq!((b[0], le16_at(&b, 1), b[3], b[4], b[5]), (0x88, 13, 1, 0x0c, 3), "WordIO descriptor header and flags with translation {:?}", tr);
+        assert_eq!((le16_at(&b, 8), le16_at(&b, 10), le16_at(&b, 12), le16_at(&b, 14)), (0x100, 0x1ff, tr.unwrap_or(0), 0x100));
+    }
+    for tr in [None, Some(0u32), Some(0x10_0000)] {
+        let b = ser(&AddressSpace::<u32>::new_io(0x1000, 0x1fff, tr));
+        assert_eq!((b[0], b[3], b[4], b[5]), (0x87, 1, 0x0c, 3), "DWordIO flags with translation {:?}", tr);
+        let b = ser(&AddressSpace::<u64>::new_io(0x1000, 0x1fff, tr.map(|x| x as u64)));
+        assert_eq!((b[0], b[3], b[4], b[5]), (0x8a, 1, 0x0c, 3), "QWordIO flags with translation {:?}", tr);
+    }
     let b = ser(&AddressSpace::<u16>::new_bus_number(0, 0xfe));
     assert_eq!(b, vec![0x88, 13, 0, 2, 0x0c, 0, 0, 0, 0, 0, 0xfe, 0, 0, 0, 0xff, 0]);
 }
@@ -1469,6 +1508,19 @@ fn c04_entries_decode_to_the_callers_values() {
     let b = ser(&f);
     assert_eq!(&b[0..4], b"FACP"); assert_eq!(le32_at(&b, 4), 276); assert_eq!(b[8], 6); assert_eq!(le32_at(&b, 36), 0, "FIRMWARE_CTRL cleared by the 64-bit setter"); assert_eq!(le32_at(&b, 40), 0x1111_2222, "DSDT kept");
     assert_eq!((b[52], b[53]), (1, 0)); assert_eq!((le32_at(&b, 80), le32_at(&b, 84), b[92], b[93], b[94]), (1, 2, 3, 4, 5)); assert_eq!(le64_at(&b, 132), 0x3333_4444_5555); assert_eq!(le64_at(&b, 140), 0);
+    // each pointer pair: the last setter wins, the other form is cleared, in either order
+    let b = ser(&fadt::FADTBuilder::new(OEM, TBL, 9).dsdt_64(0x1_2345_6789).dsdt_32(0x4242).finalize());
+    assert_eq!(le32_at(&b, 40), 0x4242, "DSDT after dsdt_64 then dsdt_32"); assert_eq!(le64_at(&b, 140), 0, "X_DSDT cleared by the 32-bit setter");
+    let b = ser(&fadt::FADTBuilder::new(OEM, TBL, 9).firmware_ctrl_64(0x1_2345_6789).firmware_ctrl_32(0x4343).finalize());
+    assert_eq!(le32_at(&b, 36), 0x4343, "FIRMWARE_CTRL after firmware_ctrl_64 then firmware_ctrl_32"); assert_eq!(le64_at(&b, 132), 0, "X_FIRMWARE_CTRL cleared by the 32-bit setter");
+    let b = ser(&fadt::FADTBuilder::new(OEM, TBL, 9).dsdt_32(0x4242).dsdt_64(0x1_2345_6789).finalize());
+    assert_eq!(le32_at(&b, 40), 0); assert_eq!(le64_at(&b, 140), 0x1_2345_6789);
+    // RQSC ACPI-device resource: Resource ID 1 is the full 64-bit _HID, Resource ID 2 the 32-bit _UID
+    let hid = u64::from_le_bytes(*b"ACPI0004");
+    let rs = rqsc::ResourceStructure::new(rqsc::ResourceType::Memory, 0x0102, rqsc::ResourceID::ACPIDevice(rqsc::ACPIDeviceResource::new(hid, 0xdead_beef)));
+    let b = ser(&rs);
+    assert_eq!(le16_at(&b, 2) as usize, b.len(), "RQSC resource length"); assert_eq!(le16_at(&b, 4), 0x0102);
+    assert_eq!(&b[8..16], b"ACPI0004", "RQSC ACPI device resource: all eight _HID bytes"); assert_eq!(le32_at(&b, 16), 0xdead_beef);
     let f = fadt::FADTBuilder::new(OEM, TBL, 9).firmware_ctrl_32(7).dsdt_64(0x9999_0000_0000).firmware_ctrl_32(8).finalize();
     let b = ser(&f); assert_eq!(le32_at(&b, 36), 8); assert_eq!(le64_at(&b, 132), 0); assert_eq!(le32_at(&b, 40), 0); assert_eq!(le64_at(&b, 140), 0x9999_0000_0000);
     let b = ser(&gas::GAS::new_pci_config(32, gas::AccessSize::DwordAccess, 31, 7, 0xfffc)); assert_eq!((b[0], b[1], b[2], b[3]), (2, 32, 0, 3)); assert_eq!(le64_at(&b, 4), (31u64 << 32) | (7 << 16) | 0xfffc);
